@@ -41,4 +41,4 @@ def make_cases(rnd, tier, progs):
 def run(tier, seed, replay):
     if replay:
         return modcheck.replay_cmd(PROP, replay)
-    return modcheck.run(PROP, tier, seed, make_cases)
+    return modcheck.run(PROP, tier, seed, make_cases, failed_call_after=("remove_barriers", "remove_measurements", "reverse_qubit_order", "remove_idle_qubits", "populate_idle_qubits"))
